@@ -67,6 +67,11 @@ type Block struct {
 	LastKey  string
 	Records  int
 	Restarts int
+	// Varints lists where every varint field of the block's records starts, as an
+	// offset from the start of the block (for a log block: into Content).
+	Varints []int
+	// Content is the inflated block (with its 4-byte header) of a log block.
+	Content []byte
 
 	refs  []Ref
 	logs  []Log
@@ -238,6 +243,7 @@ func Decode(data []byte, hashSize int, aligned bool) *File {
 				return f
 			}
 			content = append(append([]byte{}, body[pos:pos+hoff+4]...), inflated...)
+			b.Content = content
 			b.Occupied = hoff + 4 + consumed
 		} else {
 			if pos+uint64(blen) > uint64(len(body)) {
@@ -312,7 +318,9 @@ func (f *File) parseBlock(b *Block, c []byte, hoff int) bool {
 			f.errf("block %c at %d: bad prefix varint at %d", b.Type, b.Off, p)
 			return false
 		}
+		b.Varints = append(b.Varints, p)
 		p += k
+		b.Varints = append(b.Varints, p)
 		sv, k := varint(recs[p:])
 		if k < 0 {
 			f.errf("block %c at %d: bad suffix varint at %d", b.Type, b.Off, p)
@@ -382,6 +390,7 @@ func (f *File) parseValue(b *Block, recs []byte, p int, key string, extra int) (
 		if k < 0 {
 			return fail("bad update index delta")
 		}
+		b.Varints = append(b.Varints, p)
 		p += k
 		r := Ref{Name: key, Idx: f.Min + d, Kind: extra}
 		if r.Idx > f.Max || r.Idx < f.Min {
@@ -404,6 +413,7 @@ func (f *File) parseValue(b *Block, recs []byte, p int, key string, extra int) (
 			if k < 0 || uint64(len(recs)-p-k) < tl {
 				return fail("symref target truncated")
 			}
+			b.Varints = append(b.Varints, p)
 			p += k
 			r.Target = string(recs[p : p+int(tl)])
 			p += int(tl)
@@ -423,6 +433,7 @@ func (f *File) parseValue(b *Block, recs []byte, p int, key string, extra int) (
 			return fail("bad block position")
 		}
 		b.index = append(b.index, IndexEntry{Key: key, Pos: pos, PosOff: int(b.Off) + p, PosLen: k})
+		b.Varints = append(b.Varints, p)
 		p += k
 	case 'o':
 		cnt := uint64(extra)
@@ -433,6 +444,7 @@ func (f *File) parseValue(b *Block, recs []byte, p int, key string, extra int) (
 				return fail("bad position count")
 			}
 			countOff = int(b.Off) + p
+			b.Varints = append(b.Varints, p)
 			p += k
 			cnt = c
 		}
@@ -443,6 +455,7 @@ func (f *File) parseValue(b *Block, recs []byte, p int, key string, extra int) (
 			if k < 0 {
 				return fail("bad position delta")
 			}
+			b.Varints = append(b.Varints, p)
 			p += k
 			if i == 0 {
 				lastPos = d
@@ -481,6 +494,7 @@ func (f *File) parseValue(b *Block, recs []byte, p int, key string, extra int) (
 				if k < 0 || uint64(len(recs)-p-k) < n {
 					return "", false
 				}
+				b.Varints = append(b.Varints, p)
 				p += k
 				s := string(recs[p : p+int(n)])
 				p += int(n)
@@ -497,6 +511,7 @@ func (f *File) parseValue(b *Block, recs []byte, p int, key string, extra int) (
 			if k < 0 {
 				return fail("bad time")
 			}
+			b.Varints = append(b.Varints, p)
 			p += k
 			l.Time = t
 			if len(recs)-p < 2 {
